@@ -2,6 +2,8 @@ package main
 
 import (
 	"fmt"
+	"github.com/flosch/pongo2/v6"
+	"io"
 	"strings"
 )
 
@@ -134,6 +136,22 @@ func execC06(r *run, c caseT) {
 		}
 	case "frags":
 		r.nontrivial(c.args[0])
+		if tpl, err := pongo2.FromString(src); err == nil {
+			// what ExecuteBytes returned belongs to the caller: later renderings do not change it
+			b1, e1 := tpl.ExecuteBytes(ctx.goContext())
+			keep := string(b1)
+			for k := 0; k < 3 && e1 == nil; k++ {
+				_, _ = tpl.Execute(ctx.goContext())
+				if t2, err2 := pongo2.FromString("XXXXXXXXXXXXXXXXXXXXXXXXXXXXXXXXXXXXXXXXXXXXXXXXXXXXXXXXXXXXXXXX{{ s }}"); err2 == nil {
+					_, _ = t2.ExecuteBytes(ctx.goContext())
+					_ = t2.ExecuteWriter(ctx.goContext(), io.Discard)
+				}
+			}
+			if e1 == nil && string(b1) != keep {
+				r.reject(id, "the bytes returned by ExecuteBytes changed when something else was rendered afterwards", map[string]any{"source_hex": c.args[0], "before": keep, "after": string(b1)})
+				return
+			}
+		}
 		var frags []string
 		for _, h := range strings.Split(c.args[9], ",") {
 			frags = append(frags, unhx(h))
